@@ -289,6 +289,9 @@ func (s *Session) Read(b []byte) (n int, err error) {
 				if s.recvQueue.Len() > 0 {
 					continue
 				}
+				if s.inputHasErr.Load() {
+					return 0, io.ErrUnexpectedEOF
+				}
 				return 0, io.EOF
 			case <-s.inputErr:
 				return 0, io.ErrUnexpectedEOF
@@ -1193,6 +1196,19 @@ func (s *Session) inputAck(seg *segment) error {
 }
 
 func (s *Session) inputClose(seg *segment) error {
+	if seg.metadata.Protocol() == closeSessionRequest && s.transportProtocol == common.PacketTransport {
+		// The sequence number of a close session request follows the last
+		// segment sent by the peer. If it is ahead of what has been received,
+		// some data was lost or is still in flight, and will not be
+		// retransmitted after the peer closed the session. Let the reader
+		// see an abnormal end of stream rather than a clean EOF.
+		if ss, ok := seg.metadata.(*sessionStruct); ok && ss.seq > s.nextRecv.Load() {
+			log.Debugf("%v received close session request with seq %d while next receive seq is %d", s, ss.seq, s.nextRecv.Load())
+			if s.inputHasErr.CompareAndSwap(false, true) {
+				close(s.inputErr)
+			}
+		}
+	}
 	s.oLock.Lock()
 	if seg.metadata.Protocol() == closeSessionRequest {
 		// Send close session response.
